@@ -8,7 +8,9 @@ def spec(tier, seed):
     mid = b.file(sk.MID_FILE, "rusty_basic", "interpreter::built_ins::mid_fn")
     b.helper(mid, sk.ASCII_TEXT)
     for n in (0, 1, 2, 3, 4):
-        sk.mid_equation(b, mid, "vk_c17", n, "quick" if n <= 3 else "thorough")
+        sk.mid_equation(b, mid, "vk_c17", n, "quick" if n <= 3 else "thorough", full_range=True)
+    sk.mid_long(b, mid, "vk_c17", 300, "quick")
+    sk.mid_long(b, mid, "vk_c17", 70000, "thorough", core=False)
     ins = b.file(sk.INSTR_FILE, "rusty_basic", "interpreter::built_ins::instr")
     b.helper(ins, sk.ASCII_TEXT)
     for h in (1, 2, 3, 4):
@@ -24,7 +26,7 @@ def spec(tier, seed):
     sk.arg_casts(b, casts, "vk_c17")
     return b.build(
         tier,
-        bounds="strings of exactly 0..3 (quick) / 0..4 (thorough) 7-bit bytes, one instance per length; needle 1..2; start and count 1..7 / 0..7; "
+        bounds="strings of exactly 0..3 (quick) / 0..4 (thorough) 7-bit bytes, one instance per length; needle 1..2; MID$ start 1..32767 and count 0..32767 (everything the argument conversions let through), INSTR start 1..len+2; "
                "VAL on 1..3 (quick) / 1..5 digits; argument conversions full width",
         outside="LEFT$, RIGHT$, LTRIM$, RTRIM$, UCASE$, LCASE$, SPACE$, STRING$, LEN and the concatenation laws (inline in "
                 "run<S: InterpreterTrait>, need the VM Context); STR$ (format!); non-ASCII strings; INSTR with an empty needle",
